@@ -177,7 +177,7 @@ P_C04 = gen.profile(**{**gen.SCHED, "swarm": ("resources", "p_dep", "max_args", 
 P_C05 = gen.profile(**{**gen.SCHED, "p_seq": 0.35, "mc": (2, 5), "n_stmts": (3, 10)})
 P_C06 = gen.profile(**{**gen.SCHED, "prio": (-3, 5), "p_prio": 0.85, "p_flag": 0.1})
 P_C06D = gen.profile(**{**gen.SCHED, "prio": (-3, 5), "p_prio": 0.9, "p_flag": 0.05, "p_debug": 0.3, "n_stmts": (3, 10)})
-P_C08 = gen.profile(**{**gen.SCHED, "mc": (2, 5), "n_stmts": (3, 10), "p_seq": 0.15,
+P_C08 = gen.profile(**{**gen.SCHED, "mc": (2, 5), "n_stmts": (3, 10), "p_seq": 0.15, "p_setup": 0.1,
                        "shape_bias": [("uniform", 3), ("recent", 2), ("early", 1), ("wide", 1), ("join", 2), ("caterpillar", 3)]})
 P_C09 = gen.profile(**{**gen.SCHED, "swarm": ("resources", "p_dep", "max_args", "p_seq", "p_prio"), "p_flag": 0.3, "p_seq": 0.25, "p_setup": 0.08,
                        "ret_types": [("int", 5), ("bool", 2), ("tuple2", 3), ("dict", 1)], "p_unpack": 0.4, "p_flag_sibling": 0.75})
@@ -580,7 +580,33 @@ def g_c12(d: Draw) -> dict:
     return base_scn(spec, ops, debug_on=False)
 
 
+P_C13N = gen.profile(**{**gen.GRAPH, "p_debug": 0.4, "p_setup": 0.0, "n_stmts": (3, 8), "w_nested": 3, "max_depth": 1, "all_return": False,
+                        "n_params": (1, 2), "p_default": 0.3, "p_pass": 0.0})
+
+
 def g_c13(d: Draw) -> dict:
+    if d.bool(0.06):
+        # build-time rejection across a nesting: a debug node's value handed to a nested DAG (argument or switch) would make
+        # production nodes of the inner DAG depend on a debug node
+        spec = gen.gen_program(d, P_C13N)
+        dg = spec["dags"]["main"]
+        pairs = []
+        for i, s_ in enumerate(dg["stmts"]):
+            if s_["k"] == "call" and spec["funcs"][s_["fn"]]["debug"] and not s_["unpack"]:
+                for j in range(i + 1, len(dg["stmts"])):
+                    t_ = dg["stmts"][j]
+                    if t_["k"] == "dag" and (t_["args"] or spec["dags"][t_["dag"]]["flaggable"]) and not spec["dags"][t_["dag"]]["has_debug"]:
+                        pairs.append((i, j))
+        if pairs:
+            i, j = d.pick(pairs)
+            t_ = dg["stmts"][j]
+            src = ["v", dg["stmts"][i]["out"][0], []]
+            if t_["args"] and (not spec["dags"][t_["dag"]]["flaggable"] or d.bool(0.7)):
+                t_["args"][d.choice(len(t_["args"]))] = src
+            else:
+                t_["flag"] = src
+            return dict(program=spec, clients=[[dict(op="build", dags=spec["order"], expect_raise=["TawaziBaseException"])]],
+                        debug_on=d.bool(0.5))
     spec = gen.gen_program(d, P_C13)
     dg = spec["dags"]["main"]
     debug_on = d.bool(0.5)
